@@ -168,6 +168,33 @@ def _module_state_history(it, m, tree):
                              for st in tree.body)
             if bound_here:
                 v.history = it.fresh('module_state_' + name, IntS)
+    # class-level state: a dict bound in a class body (shared by all instances, and by everything built from the class during the
+    # life of the process) that methods fill through `self.X[...] = ..` / `cls.X[...]` / `Class.X[...]` or a mutator call
+    attr_names = set()
+    for fn in ast.walk(tree):
+        if not isinstance(fn, (ast.FunctionDef, ast.AsyncFunctionDef, ast.Lambda)):
+            continue
+        for n in ast.walk(fn):
+            t = None
+            if isinstance(n, ast.Subscript) and isinstance(n.ctx, (ast.Store, ast.Del)):
+                t = n.value
+            elif isinstance(n, ast.Call) and isinstance(n.func, ast.Attribute) and n.func.attr in _MUTATORS:
+                t = n.func.value
+            if isinstance(t, ast.Attribute):
+                attr_names.add(t.attr)
+    for cd in ast.walk(tree):
+        if not isinstance(cd, ast.ClassDef):
+            continue
+        cls = m.attrs.get(cd.name)
+        if not isinstance(cls, ClassV):
+            continue
+        for st in cd.body:
+            if isinstance(st, ast.Assign) and isinstance(st.value, ast.Dict) and not st.value.keys:
+                for t in st.targets:
+                    if isinstance(t, ast.Name) and t.id in attr_names:
+                        v = cls.attrs.get(t.id)
+                        if isinstance(v, PyDict) and not v.d and getattr(v, 'history', None) is None:
+                            v.history = it.fresh('class_state_%s_%s' % (cd.name, t.id), IntS)
 
 
 def _bound_names(st):
